@@ -1104,6 +1104,34 @@ Proof.
     rewrite Hun. destruct (tc_ok _); reflexivity.
 Qed.
 
+(** An unreadable system / user file at construction: whatever script follows,
+    the specification reads "unreadable". *)
+Lemma start_io_fail_any fs i e : exec fs (b0 i) (init_ops i) = Err e ->
+  e = EOther /\ forall ops', s_unreadable (supplied_of fs i ops') = true.
+Proof.
+  intros E.
+  destruct (exec_fails fs _ _ _ E) as [done [o [rest [cd [E1 [E2 [E3 _]]]]]]].
+  assert (HFi : forallb script_op (done ++ o :: rest) = true) by (rewrite <- E1; apply init_ops_script).
+  rewrite forallb_app in HFi. apply andb_true_iff in HFi as [HFd HFo]. cbn [forallb] in HFo.
+  apply andb_true_iff in HFo as [Ho _].
+  assert (Hdef : is_deferred o = true).
+  { unfold init_ops in E1. destruct (i_lazy i); [destruct done; discriminate|].
+    destruct done as [|x [|y [|z done]]]; inversion E1; subst; reflexivity. }
+  destruct (io_bad fs cd o) eqn:B; [|rewrite (step_deferred fs cd o Hdef B) in E3; discriminate].
+  rewrite (io_bad_step fs cd o Ho B) in E3. inversion E3; subst e. split; [reflexivity|]. intros ops'.
+  destruct (exec_script fs _ _ _ HFd E2) as [S _]. change (strip (b0 i)) with (b0 i) in S.
+  rewrite <- (io_bad_cache fs cd [] o) in B. fold (strip cd) in B. rewrite S in B.
+  destruct (supplied_rt fs i ops') as [_ Q]. cbv zeta in Q. rewrite Q. clear Q.
+  unfold init_ops in E1. destruct (i_lazy i); [destruct done; discriminate|]. cbn [negb orb].
+  destruct done as [|x [|y [|z done]]]; inversion E1; subst; unfold io_bad in B; cbn [undefer] in B;
+    apply located_bad_inv in B as [_ [l [El Hl]]].
+  - inversion El; subst l. destruct (located_corr fs "sys") as [K _]. cbv zeta in K. rewrite (K Hl). reflexivity.
+  - assert (Hul : c_user_loc (apply_script fs (b0 i) [LoadSystemD]) = Some "usr").
+    { destruct (fold_simple fs [LoadSystemD] (b0 i) eq_refl) as [_ [_ [_ [_ [_ [_ [_ [_ [_ [K _]]]]]]]]]]. exact K. }
+    rewrite Hul in El. inversion El; subst l.
+    destruct (located_corr fs "usr") as [K _]. cbv zeta in K. rewrite (K Hl). rewrite !orb_true_r. reflexivity.
+Qed.
+
 (** * Assembly: the correspondence record built from the model's own run *)
 Definition model_case (fs : fsys) (i : init_args) (ops : list op) : case :=
   let c := mk fs i ops (Err EOther) [] in
@@ -1148,3 +1176,18 @@ Qed.
 Theorem constructor_failure_meets_spec fs i e :
   start fs i = Err e -> spec_ok fs i [] "INVOKE_" (Err e) = true.
 Proof. exact (start_fail_ok fs i e). Qed.
+
+(** The constructor raised on an unreadable system / user file: the record of
+    ANY script is accepted (no call of the script ran). *)
+Theorem constructor_io_failure_any_script fs i ops e :
+  exec fs (b0 i) (init_ops i) = Err e -> spec (model_case fs i ops) = true.
+Proof.
+  intros E. destruct (start_io_fail_any fs i e E) as [-> Hun].
+  assert (Hs : start fs i = Err EOther) by (rewrite start_eq, E; reflexivity).
+  unfold spec, model_case, ops_run, model_mids. cbn [c_fs c_init c_ops c_obs c_mids].
+  rewrite model_out_exec, Hs. cbn [List.length map spec_mids].
+  assert (T : forall l, spec_mids fs i [] l [] = true) by (intros l; destruct l; reflexivity).
+  rewrite T, andb_true_r, spec_ok_unfold.
+  destruct (wf_script (firstn 1 ops)); [|reflexivity]. cbn [negb]. cbv zeta.
+  rewrite Hun. destruct (tc_ok _); reflexivity.
+Qed.
